@@ -318,6 +318,11 @@ pub fn run(ctx: &Ctx) -> Report {
         for name in ["sizeof", "le", "strlen", "incbin", "utf8"] {
             cases.push((format!("#d8 0xee\n{n}:\n.x:\n#d8 {n}.x\n", n = name), Some(vec![0xee, 1])));
         }
+        // a top-level constant is the parent of the locals that follow it, just like a label (tests/symbol_constant_simple)
+        cases.push(("K = 0\n.w = 1\n#d8 .w\n".to_string(), Some(vec![1])));
+        cases.push(("g:\n.v = 0x11\nK = 0\n.v = 0x22\n#d8 .v\n#d8 g.v, K.v\n".to_string(), Some(vec![0x22, 0x11, 0x22])));
+        cases.push(("#ruledef\n{\n    ld {x: u8} => 0x10 @ x\n}\ng:\n.v = 0x11\nK = 0\n.v = 0x22\nld .v\n#d8 .v\n".to_string(), Some(vec![0x10, 0x22, 0x22])));
+        cases.push(("g:\n.m = 1\n..v = 0x22\n#d8 ..v\nh:\n.m = 2\n..v = 0x33\n#d8 ..v, g.m.v\n".to_string(), Some(vec![0x22, 0x33, 0x22])));
         cases.push(("#ruledef\n{\n    ld {data: u8} => 0x01 @ data @ data.end`8\n}\ndata:\n#d8 1, 2, 3\n.end:\nld 0x55\n".to_string(), Some(vec![1, 2, 3, 1, 0x55, 3])));
         cases.push(("#ruledef\n{\n    ld {data: u8} => 0x01 @ data @ data.end`8\n}\nld 0x55\ndata:\n#d8 1, 2, 3\n.end:\n".to_string(), Some(vec![1, 0x55, 6, 1, 2, 3])));
         rep.absorb(par_cases(&cases, |(src, want), l| {
